@@ -85,7 +85,7 @@ _TRANSPARENT = [re.compile(p) for p in TRANSPARENT_UNARY]
 # combinators that `?` looks through (simp_ok / err_of): their call is not an event of its own, so that
 # `x.ok_or(E)?` / `x.map_err(f)?` and the explicit `match` leave the same trace
 IS_VARIANT = re.compile(r"^std::(option::Option::(is_some|is_none)|result::Result::(is_ok|is_err))$")
-COMBINATOR = re.compile(r"^std::(option::Option|result::Result)::(map|and_then|map_err|transpose|unwrap_or_default|unwrap_or|expect|unwrap)$")
+COMBINATOR = re.compile(r"^std::(option::Option|result::Result)::(map|and_then|or_else|map_err|transpose|unwrap_or_default|unwrap_or|expect|unwrap)$")
 PURE_COMBINATOR = re.compile(r"^std::(option::Option::(ok_or|ok_or_else)|result::Result::(map_err|ok))$")
 
 
@@ -610,6 +610,25 @@ class Walker:
                         self._walk(t["t"], s2)
                     elif not self._apply(s2, F, payload, t, wrap):
                         return False
+            return True
+        if short == "or_else" and len(args) == 2:
+            F = strip_refs(args[1])
+            if not (isinstance(F, tuple) and F[0] == "agg" and F[1] == "closure"):
+                return False
+            prog = getattr(self.fn, "prog", None)
+            if prog is None or F[2] not in prog.fns or len(self.stack) > MAX_INLINE_DEPTH or F[2] in self.stack:
+                return False
+            s2 = self._fork(st)
+            if self._assume(s2, simp_atom(("is", x, some[1]))):
+                self.assign(s2, t["dest"], ("agg", "adt", some[0], some[1], some[2], (("ok", x),)))
+                self._walk(t["t"], s2)
+            s2 = self._fork(st)
+            if self._assume(s2, simp_atom(("is", x, none[1]))):
+                env_args = () if is_opt else (("err", x),)
+                env = {1: F}
+                for i, a in enumerate(env_args):
+                    env[2 + i] = a
+                self._inline(s2, prog.fns[F[2]][0], env, t, "call")
             return True
         if short == "map_err" and not is_opt and len(args) == 2 and isinstance(x, tuple) and x[0] == "agg" and x[1] == "adt" and x[3] in ("Ok", "Err"):
             # only on a value whose variant is known on this path (e.g. the result of a modelled `.map(..)`); `x.map_err(f)?` on an
